@@ -21,6 +21,16 @@ pub enum T {
     Bang,
     Arrow,
     DArrow,
+    LBrace,
+    RBrace,
+    LBrack,
+    RBrack,
+    DotDot,
+    DotDotEq,
+    /// the `_` of a compound variable: written without any space on either side
+    Us,
+    Str(String),
+    Nl,
 }
 pub fn w(s: &str) -> T { T::Word(s.to_string()) }
 pub fn int(s: &str) -> T { T::Int(s.to_string()) }
@@ -31,6 +41,9 @@ impl T {
             T::Int(s) | T::Float(s) | T::Word(s) => s,
             T::LPar => "(", T::RPar => ")", T::Comma => ",", T::Plus => "+", T::Minus => "-", T::Star => "*",
             T::Slash => "/", T::AmpAmp => "&&", T::BarBar => "||", T::Bang => "!", T::Arrow => "->", T::DArrow => "<->",
+            T::LBrace => "{", T::RBrace => "}", T::LBrack => "[", T::RBrack => "]", T::DotDot => "..", T::DotDotEq => "..=",
+            T::Us => "_", T::Nl => "\n",
+            T::Str(s) => s,
         }
     }
     fn wordish(&self) -> bool { matches!(self, T::Word(_)) }
@@ -42,6 +55,8 @@ pub fn safe_adjacent(a: &T, b: &T) -> bool {
     if (a.wordish() || a.numeric()) && b.numeric() { return false; }
     if a.wordish() && b.wordish() && !b.text().starts_with('$') { return false; }
     if matches!(a, T::Slash) && matches!(b, T::Slash | T::Star) { return false; }
+    // `1 .. 2`: a digit directly before `..` is fine (`1..2`), but `..` directly before `=` would be `..=`
+    if matches!(a, T::DotDot | T::DotDotEq) && matches!(b, T::DotDot | T::DotDotEq) { return false; }
     // `a - > b` never occurs (no `>` token); `<` only as part of `<->`
     true
 }
@@ -50,8 +65,17 @@ pub fn safe_adjacent(a: &T, b: &T) -> bool {
 pub fn render(toks: &[T], mode: u8, r: &mut Rng) -> String {
     let mut s = String::new();
     for (i, t) in toks.iter().enumerate() {
-        if i > 0 {
-            let safe = safe_adjacent(&toks[i - 1], t);
+        if let T::Str(x) = t {
+            if i > 0 && mode != 1 { s.push(' '); }
+            s.push('"'); s.push_str(x); s.push('"');
+            continue;
+        }
+        if i > 0 && (matches!(t, T::Us) || matches!(toks[i - 1], T::Us)) {
+            // compound variables are written without inner spaces
+        } else if i > 0 {
+            // a segment of a compound variable (`x_12`) is part of a word: nothing wordish / numeric may be glued to it
+            let seg = i >= 2 && matches!(toks[i - 2], T::Us) && (toks[i - 1].numeric() || toks[i - 1].wordish());
+            let safe = safe_adjacent(&toks[i - 1], t) && !(seg && (t.wordish() || t.numeric()));
             match mode {
                 0 => s.push(' '),
                 1 => { if !safe { s.push(' ') } }
@@ -77,28 +101,63 @@ pub fn in_domain(toks: &[T]) -> bool {
     toks.windows(2).all(|p| !(p[0].wordish() && p[1].wordish() && p[1].text().starts_with('_')))
 }
 
+/// canonical S-expression of a parsed `PreExp` with numbers by their LEXEME in `source` (what the parser model
+/// answers); arrays by their display, graphs / tuples / other primitives as `(other …)` (outside the model)
 pub fn pre_exp(e: &PreExp, source: &str) -> String {
+    let list = |head: &str, name: &str, es: &[PreExp]| {
+        let mut s = format!("({} {}", head, sx::q(name));
+        for a in es { s.push(' '); s.push_str(&pre_exp(a, source)); }
+        s.push(')');
+        s
+    };
     match e {
         PreExp::Primitive(p) => match p.value() {
             Primitive::Integer(i) => format!("(int {})", i),
             Primitive::Number(_) => format!("(num {})", sx::q(p.span_text(source).unwrap_or("?"))),
             Primitive::Boolean(b) => format!("(bool {})", b),
+            Primitive::String(s) => format!("(str {})", sx::q(s)),
+            Primitive::Iterable(it) => format!("(prim {})", sx::q(&it.to_string())),
             other => format!("(other {})", sx::q(&format!("{:?}", other))),
         },
         PreExp::Variable(n) => format!("(var {})", sx::q(n.value())),
-        PreExp::FunctionCall(_, f) => {
-            let mut s = format!("(call {}", sx::q(&f.name));
-            for a in &f.args { s.push(' '); s.push_str(&pre_exp(a, source)); }
-            s.push(')');
-            s
-        }
+        PreExp::FunctionCall(_, f) => list("call", &f.name, &f.args),
         PreExp::BinaryOperation(op, l, r) => format!("(bin {} {} {})", sx::binop(**op), pre_exp(l, source), pre_exp(r, source)),
         PreExp::UnaryOperation(op, x) => format!("(un {} {})", sx::unop(**op), pre_exp(x, source)),
-        PreExp::CompoundVariable(_) => "(other \"CompoundVariable\")".into(),
-        PreExp::ArrayAccess(_) => "(other \"ArrayAccess\")".into(),
-        PreExp::BlockFunction(_) => "(other \"BlockFunction\")".into(),
-        PreExp::BlockScopedFunction(_) => "(other \"BlockScopedFunction\")".into(),
+        PreExp::CompoundVariable(c) => list("cvar", &c.name, &c.indexes),
+        PreExp::ArrayAccess(a) => list("access", &a.name, &a.accesses),
+        PreExp::BlockFunction(b) => list("block", &b.kind.to_string(), &b.exps),
+        PreExp::BlockScopedFunction(b) => format!("(scoped {} {} {})", sx::q(&b.kind.to_string()), iters_lex(&b.iters, source), pre_exp(&b.exp, source)),
     }
+}
+pub fn iters_lex(its: &[IterableSet], source: &str) -> String {
+    let mut s = String::from("(its");
+    for i in its { s.push_str(&format!(" (it {} {})", var_kind(&i.var), pre_exp(i.iterator.value(), source))); }
+    s.push(')');
+    s
+}
+
+/// class of a rejection by `RoocParser::parse`: `peg` (pest did not match the text) or the first error of the AST
+/// builders, named as the parser model names them
+pub fn error_class(e: &rooc::CompilationError) -> String {
+    let s = e.to_string();
+    let body = s.splitn(2, "] ").nth(1).unwrap_or(&s);
+    if body.trim_start().starts_with("--> ") { return "peg".into(); }
+    let table: [(&str, &str); 11] = [
+        ("Unknown objective type", "objective-kind"),
+        ("Expected integer but got", "int-overflow"),
+        ("Unknown block function", "unknown-block"),
+        ("Unknown scoped block function", "unknown-scoped"),
+        ("the block", "block-arity"),
+        ("Unknown variable type", "unknown-type"),
+        ("IntegerRange must have", "integer-range-arity"),
+        ("Missing constant body", "missing-constant-name"),
+        ("Expected compound variable index", "compound-index"),
+        ("parallel edges", "graph-parallel-edges"),
+        ("Expected number but got", "graph-edge-cost"),
+    ];
+    for (pre, class) in table { if body.starts_with(pre) { return class.into(); } }
+    if body.starts_with("found ") && body.contains("expected number") { return "int-overflow".into(); }
+    format!("other:{}", body.chars().take(40).collect::<String>().replace(['\n', '"', '(', ')'], " "))
 }
 
 pub fn variables(e: &PreExp, out: &mut Vec<String>) {
@@ -108,6 +167,17 @@ pub fn variables(e: &PreExp, out: &mut Vec<String>) {
         PreExp::BinaryOperation(_, l, r) => { variables(l, out); variables(r, out) }
         PreExp::UnaryOperation(_, x) => variables(x, out),
         _ => {}
+    }
+}
+/// does the tree use a leaf kind beyond numbers, names and calls?
+pub fn has_block_leaf(e: &PreExp) -> bool {
+    match e {
+        PreExp::CompoundVariable(_) | PreExp::ArrayAccess(_) | PreExp::BlockFunction(_) | PreExp::BlockScopedFunction(_) => true,
+        PreExp::Primitive(p) => !matches!(p.value(), Primitive::Integer(_) | Primitive::Number(_) | Primitive::Boolean(_)),
+        PreExp::FunctionCall(_, f) => f.args.iter().any(has_block_leaf),
+        PreExp::BinaryOperation(_, l, r) => has_block_leaf(l) || has_block_leaf(r),
+        PreExp::UnaryOperation(_, x) => has_block_leaf(x),
+        PreExp::Variable(_) => false,
     }
 }
 
@@ -135,18 +205,24 @@ pub fn swap_alias(t: &T) -> Option<T> {
 /// keyword <-> alias swap of every token that stands in OPERATOR position (a word such as `and` directly
 /// in leaf position is a function name or an error, not an operator). None: nothing to swap.
 pub fn alias_twin(toks: &[T]) -> Option<Vec<T>> {
+    // iteration declarations (`not in S`, `(u, not) in E`, `i in and()`) put words where this scan expects operators
+    if toks.iter().any(|t| matches!(t, T::Word(s) if s.to_ascii_lowercase() == "in")) { return None; }
     let mut out = Vec::with_capacity(toks.len());
     let mut expect_leaf = true;
     let mut had_unary = false;
     let mut swapped = false;
-    for t in toks {
+    for (ti, t) in toks.iter().enumerate() {
         let mut o = t.clone();
+        // a word glued to `_` is (the base of) a compound variable, never an operator
+        if matches!(toks.get(ti + 1), Some(T::Us)) || (ti > 0 && matches!(toks[ti - 1], T::Us)) {
+            if matches!(t, T::Word(_) | T::Int(_)) { expect_leaf = false; out.push(o); continue; }
+        }
         if expect_leaf {
             match t {
                 T::Minus | T::Bang if !had_unary => { had_unary = true; if let Some(x) = swap_alias(t) { o = x; swapped = true; } }
                 T::Word(s) if s == "not" && !had_unary => { had_unary = true; o = T::Bang; swapped = true; }
-                T::LPar => { had_unary = false; }
-                T::RPar => { expect_leaf = false; }
+                T::LPar | T::LBrace | T::LBrack => { had_unary = false; }
+                T::RPar | T::RBrace | T::RBrack | T::Str(_) => { expect_leaf = false; }
                 T::Int(_) | T::Float(_) | T::Word(_) => { expect_leaf = false; }
                 _ => {}
             }
@@ -160,11 +236,15 @@ pub fn alias_twin(toks: &[T]) -> Option<Vec<T>> {
                     if let Some(x) = swap_alias(t) { o = x; swapped = true; }
                     expect_leaf = true; had_unary = false;
                 }
-                T::LPar | T::Comma => { expect_leaf = true; had_unary = false; }
+                T::LPar | T::Comma | T::LBrace | T::LBrack | T::DotDot | T::DotDotEq => { expect_leaf = true; had_unary = false; }
                 _ => {}
             }
         }
         out.push(o);
+    }
+    // a swapped operator glued to the `_` of a compound variable would change the lexical structure (`||_x` / `or_x`)
+    for i in 0..out.len() {
+        if out[i] != toks[i] && (matches!(toks.get(i + 1), Some(T::Us)) || (i > 0 && matches!(toks[i - 1], T::Us))) { return None; }
     }
     if swapped { Some(out) } else { None }
 }
@@ -233,6 +313,17 @@ fn variable(v: &Variable) -> String {
         }
     }
 }
+fn variable_lex(v: &Variable, src: &str) -> String {
+    match v {
+        Variable::Variable(n) => format!("(v {})", sx::q(n)),
+        Variable::CompoundVariable(c) => {
+            let mut s = format!("(cv {}", sx::q(&c.name));
+            for a in &c.indexes { s.push(' '); s.push_str(&pre_exp(a, src)); }
+            s.push(')');
+            s
+        }
+    }
+}
 fn opt_exp(e: &Option<PreExp>) -> String { match e { Some(e) => pre_exp_full(e), None => "none".into() } }
 fn pre_var_type(t: &PreVariableType) -> String {
     match t {
@@ -277,52 +368,264 @@ pub fn pre_model_lex(m: &PreModel, src: &str) -> String {
     let mut s = format!("(premodel (obj {} {}) (constraints", kind, e(&o.rhs));
     for c in m.constraints() {
         s.push_str(&format!(" (c {} {} {} {} {} {})",
-            match &c.name_exp { Some(n) => variable(n.value()), None => "none".into() },
-            e(&c.lhs), sx::cmp(c.constraint_type), e(&c.rhs), c.is_logic_assertion, iters(&c.iteration)));
+            match &c.name_exp { Some(n) => variable_lex(n.value(), src), None => "none".into() },
+            e(&c.lhs), sx::cmp(c.constraint_type), e(&c.rhs), c.is_logic_assertion, iters_lex(&c.iteration, src)));
     }
     s.push_str(") (consts");
     for k in m.constants() { s.push_str(&format!(" (let {} {})", sx::q(k.name.value()), e(&k.value))); }
     s.push_str(") (domains");
     for d in m.domains() {
         s.push_str(" (dom (vars");
-        for v in d.variables() { s.push(' '); s.push_str(&variable(v.value())); }
+        for v in d.variables() { s.push(' '); s.push_str(&variable_lex(v.value(), src)); }
         let ty = match d.get_type() {
             PreVariableType::Boolean => "bool".to_string(),
             PreVariableType::NonNegativeReal(a, b) => format!("(nnreal {} {})", oe(a), oe(b)),
             PreVariableType::Real(a, b) => format!("(real {} {})", oe(a), oe(b)),
             PreVariableType::IntegerRange(a, b) => format!("(intrange {} {})", e(a), e(b)),
         };
-        s.push_str(&format!(") {} {})", ty, iters(d.iteration())));
+        s.push_str(&format!(") {} {})", ty, iters_lex(d.iteration(), src)));
     }
     s.push_str("))");
     s
 }
 
-/// light lexical filter for the program fragment the Lean parser model reads (no brackets, braces, strings, escapes,
-/// iterations, inner underscores; `.` only inside a decimal literal or `s.t.`)
-pub fn in_program_fragment(src: &str) -> bool {
-    let cs: Vec<char> = src.chars().collect();
-    for (i, &c) in cs.iter().enumerate() {
-        let ok = c.is_ascii_alphanumeric() || "éèêíıñüößλд".contains(c) || " \t\n$_(),+-*/!<>=&|:.".contains(c);
-        if !ok { return false; }
-        if c == '_' && i > 0 && (cs[i - 1].is_alphanumeric()) { return false; }
-        if c == '.' {
-            let digit_side = i > 0 && i + 1 < cs.len() && cs[i - 1].is_ascii_digit() && cs[i + 1].is_ascii_digit();
-            let st = (i >= 1 && (cs[i - 1] == 's' || cs[i - 1] == 'S') && i + 2 < cs.len() && (cs[i + 1] == 't' || cs[i + 1] == 'T') && cs[i + 2] == '.')
-                || (i >= 3 && (cs[i - 1] == 't' || cs[i - 1] == 'T') && cs[i - 2] == '.' && (cs[i - 3] == 's' || cs[i - 3] == 'S'));
-            if !digit_side && !st { return false; }
-        }
-        if (c == '&' || c == '|') && !((i + 1 < cs.len() && cs[i + 1] == c) || (i > 0 && cs[i - 1] == c)) { return false; }
-    }
-    let lower = src.to_ascii_lowercase();
-    for w in lower.split(|c: char| !(c.is_alphanumeric() || c == '_' || c == '$')) {
-        if w == "for" || w == "in" || w == "graph" || w == "subject" { return false; }
-    }
-    // a word starting with `_` directly after a word would be glued into a compound variable
-    let toks: Vec<&str> = src.split_whitespace().collect();
-    for p in toks.windows(2) {
-        let a_word = p[0].chars().last().map(|c| c.is_alphanumeric()).unwrap_or(false);
-        if a_word && p[1].starts_with('_') { return false; }
+// ------------------------------------------------------------------------------ twin of the Lean lexer's domain
+const EXTRA_LETTERS: &str = "éèêíıñüößλд";
+fn is_letter(c: char) -> bool { c.is_ascii_alphabetic() || EXTRA_LETTERS.contains(c) }
+fn is_word_char(c: char) -> bool { is_letter(c) || c.is_ascii_digit() || c == '_' }
+fn is_simple_run(r: &[char]) -> bool {
+    let k = r.iter().take_while(|&&c| c == '_').count();
+    match r.get(k) { Some(&c) => is_letter(c) && r[k + 1..].iter().all(|&d| is_letter(d) || d.is_ascii_digit()), None => false }
+}
+fn is_plain_run(r: &[char]) -> bool { !r.is_empty() && is_letter(r[0]) && r[1..].iter().all(|&d| is_letter(d) || d.is_ascii_digit()) }
+/// `compoundTail` of Rooc/Syntax/Tok.lean: are the `_seg` pieces behind a base name / a `}` readable?
+fn tail_ok(segs: &[&[char]], next: &[char]) -> bool {
+    for (i, seg) in segs.iter().enumerate() {
+        let last = i + 1 == segs.len();
+        if seg.is_empty() { return last && next.first() == Some(&'{'); }
+        let all_digits = seg.iter().all(|c| c.is_ascii_digit());
+        if !(all_digits || is_plain_run(seg)) { return false; }
+        if last && all_digits && next.len() >= 2 && next[0] == '.' && next[1].is_ascii_digit() { return false; }
     }
     true
+}
+/// does the Lean lexer model (`lex`, Rooc/Syntax/Tok.lean) cut this text into tokens (true) or answer `unsupported`?
+/// Kept in step with the model by the correspondence check itself: a wrong prediction shows up as a mismatch.
+pub fn lex_supported(src: &str) -> bool {
+    let cs: Vec<char> = src.chars().collect();
+    let mut i = 0;
+    let mut prev_word = false;
+    let mut last_word_graph = false;
+    while i < cs.len() {
+        let c = cs[i];
+        let rest = &cs[i + 1..];
+        let mut now_graph = false;
+        if c == ' ' || c == '\t' { i += 1; now_graph = last_word_graph; }
+        else if c == '\n' { i += 1; prev_word = false; }
+        else if c == '\r' { i += if rest.first() == Some(&'\n') { 2 } else { 1 }; prev_word = false; }
+        else if c == ':' || c == '=' || c == '(' || c == ')' || c == ',' || c == '+' || c == '*' || c == '!' || c == '[' || c == ']' { i += 1; prev_word = false; }
+        else if c == '{' { if last_word_graph { return false; } i += 1; prev_word = false; }
+        else if c == '>' { i += if rest.first() == Some(&'=') { 2 } else { 1 }; prev_word = false; }
+        else if c == '/' {
+            if rest.first() == Some(&'/') { while i < cs.len() && cs[i] != '\n' { i += 1; } now_graph = last_word_graph; }
+            else if rest.first() == Some(&'*') {
+                let mut j = i + 2;
+                let mut found = None;
+                while j + 1 < cs.len() { if cs[j] == '*' && cs[j + 1] == '/' { found = Some(j + 2); break; } j += 1; }
+                match found { Some(k) => { i = k; now_graph = last_word_graph; } None => { i += 1; prev_word = false; } }
+            } else { i += 1; prev_word = false; }
+        }
+        else if c == '-' { i += if rest.first() == Some(&'>') { 2 } else { 1 }; prev_word = false; }
+        else if c == '<' {
+            if rest.len() >= 2 && rest[0] == '-' && rest[1] == '>' { i += 3 } else if rest.first() == Some(&'=') { i += 2 } else { i += 1 }
+            prev_word = false;
+        }
+        else if c == '&' || c == '|' { if rest.first() == Some(&c) { i += 2; prev_word = false; } else { return false; } }
+        else if c.is_ascii_digit() {
+            let mut j = i; while j < cs.len() && cs[j].is_ascii_digit() { j += 1; }
+            if j < cs.len() && cs[j] == '.' {
+                if j + 1 >= cs.len() { return false; }
+                let d = cs[j + 1];
+                if d.is_ascii_digit() { j += 1; while j < cs.len() && cs[j].is_ascii_digit() { j += 1; } }
+                else if d == '.' { /* `1..n`: integer, the dots are lexed next */ }
+                else { return false; }
+            }
+            i = j; prev_word = false;
+        }
+        else if c == '$' {
+            let mut j = i + 1; while j < cs.len() && is_word_char(cs[j]) { j += 1; }
+            if !is_simple_run(&cs[i + 1..j]) { return false; }
+            i = j; prev_word = true;
+        }
+        else if (c == 's' || c == 'S') && rest.len() >= 3 && rest[0] == '.' && (rest[1] == 't' || rest[1] == 'T') && rest[2] == '.' { i += 4; prev_word = false; }
+        else if is_letter(c) || c == '_' {
+            let mut j = i; while j < cs.len() && is_word_char(cs[j]) { j += 1; }
+            let run = &cs[i..j];
+            if c == '_' && prev_word { return false; }
+            if is_simple_run(run) {
+                now_graph = run.iter().collect::<String>().to_ascii_lowercase() == "graph";
+            } else if c == '_' {
+                // the lone `_` (`no_par`), unless a `{` follows (`_{…}`: a compound variable without a base name)
+                if !(run.len() == 1 && cs.get(j) != Some(&'{')) { return false; }
+            }
+            else {
+                let segs: Vec<&[char]> = run.split(|&x| x == '_').collect();
+                if !tail_ok(&segs[1..], &cs[j..]) { return false; }
+                now_graph = segs.last().map(|x| x.iter().collect::<String>().to_ascii_lowercase() == "graph").unwrap_or(false);
+            }
+            i = j; prev_word = true;
+        }
+        else if c == '}' {
+            if rest.first() == Some(&'_') {
+                let mut j = i + 1; while j < cs.len() && is_word_char(cs[j]) { j += 1; }
+                let run = &cs[i + 1..j];
+                let segs: Vec<&[char]> = run.split(|&x| x == '_').collect();
+                if !tail_ok(&segs[1..], &cs[j..]) { return false; }
+                i = j;
+            } else { i += 1; }
+            prev_word = true;
+        }
+        else if c == '.' {
+            if rest.len() >= 2 && rest[0] == '.' && rest[1] == '=' { i += 3 } else if rest.first() == Some(&'.') { i += 2 } else { return false; }
+            prev_word = false;
+        }
+        else if c == '"' {
+            let mut j = i + 1; while j < cs.len() && cs[j] != '"' && cs[j] != '\\' { j += 1; }
+            if j < cs.len() && cs[j] == '"' { i = j + 1; prev_word = false; } else { return false; }
+        }
+        else { return false; }
+        last_word_graph = now_graph;
+    }
+    true
+}
+
+/// words at which pest's case-insensitive literals without a word boundary (`^"min"`, `^"for"`, `^"in"`, `^"as"`,
+/// `^"where"`, `^"define"`, `"let"`, `^"subject to"`) may split a word the model reads as one identifier
+pub fn has_glued_keyword(src: &str) -> bool {
+    let lower = src.to_ascii_lowercase();
+    let mut prev = "";
+    for w in lower.split(|c: char| !(c.is_alphanumeric() || c == '_' || c == '$')) {
+        if w.is_empty() { continue; }
+        if w == "subject" { return true; }
+        // the word behind `as` is a type name (`IntegerRange`): no keyword is expected there
+        if prev != "as" {
+            for k in ["min", "max", "solve", "for", "in", "as", "where", "define", "let", "graph"] {
+                if w.len() > k.len() && w.starts_with(k) { return true; }
+            }
+        }
+        prev = w;
+    }
+    false
+}
+
+// ------------------------------------------------------------------------------ twin of the printable fragment
+// `coreExp` / `coreProgram` of Rooc/Syntax/FormatToks.lean, ProgramToks.lean, on the parsed tree.  The model answers
+// `parse-program` with `in-fragment` / `out-of-fragment`, so a twin that drifts shows up as a correspondence mismatch.
+const KEYWORDS: [&str; 18] = ["for", "min", "max", "where", "true", "false", "in", "as", "define", "let", "solve", "and", "or", "not", "implies", "iff", "xor", "_"];
+fn plain_run_s(s: &str) -> bool { let cs: Vec<char> = s.chars().collect(); is_plain_run(&cs) }
+fn plain_var(s: &str) -> bool { plain_run_s(s) && !KEYWORDS.contains(&s) }
+fn float_text(s: &str) -> bool {
+    let mut p = s.splitn(2, '.');
+    let a = p.next().unwrap_or("");
+    match p.next() { Some(b) => !a.is_empty() && !b.is_empty() && a.chars().all(|c| c.is_ascii_digit()) && b.chars().all(|c| c.is_ascii_digit()), None => false }
+}
+fn range_sugar(f: &rooc::FunctionCall) -> bool {
+    f.name == "range" && f.args.len() == 3 && matches!(&f.args[2], PreExp::Primitive(p) if matches!(p.value(), Primitive::Boolean(_)))
+}
+/// `lexeme`: numbers are judged by their text in the source (always a float literal), else by their display
+pub fn core_exp(e: &PreExp, lexeme: bool) -> bool {
+    match e {
+        PreExp::Primitive(p) => match p.value() {
+            Primitive::Integer(i) => *i >= 0,
+            Primitive::Number(v) => lexeme || float_text(&number_text(*v)),
+            Primitive::Boolean(_) => true,
+            Primitive::String(s) => !s.chars().any(|c| c == '"' || c == '\\' || c == '\n' || c == '\r'),
+            Primitive::Iterable(rooc::IterableKind::Integers(v)) => v.iter().all(|x| *x >= 0),
+            Primitive::Iterable(rooc::IterableKind::Anys(v)) => v.is_empty(),
+            _ => false,
+        },
+        PreExp::Variable(n) => plain_var(n.value()),
+        PreExp::CompoundVariable(c) => plain_run_s(&c.name) && !c.indexes.is_empty() && core_idx(&c.indexes, lexeme),
+        PreExp::ArrayAccess(a) => plain_run_s(&a.name) && a.name != "not" && !a.accesses.is_empty() && a.accesses.iter().all(|x| core_exp(x, lexeme)),
+        PreExp::FunctionCall(_, f) => !range_sugar(f) && f.name != "not" && !f.name.is_empty() && f.name.chars().all(is_letter) && f.args.iter().all(|x| core_exp(x, lexeme)),
+        PreExp::BlockFunction(b) => !b.exps.is_empty() && (b.kind.to_string() != "abs" || b.exps.len() == 1) && b.exps.iter().all(|x| core_exp(x, lexeme)),
+        PreExp::BlockScopedFunction(b) => core_for(&b.iters, lexeme) && !b.iters.is_empty() && core_exp(&b.exp, lexeme),
+        PreExp::UnaryOperation(_, x) => core_exp(x, lexeme),
+        PreExp::BinaryOperation(_, l, r) => core_exp(l, lexeme) && core_exp(r, lexeme),
+    }
+}
+fn core_idx(idx: &[PreExp], lexeme: bool) -> bool {
+    idx.iter().all(|e| match e {
+        PreExp::Primitive(p) if matches!(p.value(), Primitive::Number(_) | Primitive::String(_)) => false,
+        PreExp::Variable(n) => plain_run_s(n.value()),
+        other => core_exp(other, lexeme),
+    })
+}
+fn core_for(its: &[IterableSet], lexeme: bool) -> bool {
+    its.iter().all(|i| {
+        let v = match &i.var {
+            VariableKind::Single(n) => plain_var(n.value()),
+            VariableKind::Tuple(ns) => !ns.is_empty() && ns.iter().all(|n| plain_var(n.value())),
+        };
+        let it = match i.iterator.value() {
+            PreExp::FunctionCall(_, f) if range_sugar(f) => core_exp(&f.args[0], lexeme) && core_exp(&f.args[1], lexeme),
+            other => core_exp(other, lexeme),
+        };
+        v && it
+    })
+}
+fn core_name(v: &Variable, lexeme: bool) -> bool {
+    match v {
+        Variable::Variable(n) => plain_var(n),
+        Variable::CompoundVariable(c) => plain_run_s(&c.name) && !c.indexes.is_empty() && core_idx(&c.indexes, lexeme),
+    }
+}
+/// first token of the printed expression if it is a word (`notForHead` of the model looks at it)
+fn first_word(e: &PreExp) -> Option<String> {
+    match e {
+        PreExp::Primitive(p) => match p.value() { Primitive::Boolean(b) => Some(b.to_string()), _ => None },
+        PreExp::Variable(n) => Some(n.value().clone()),
+        PreExp::CompoundVariable(c) => Some(c.name.clone()),
+        PreExp::ArrayAccess(a) => Some(a.name.clone()),
+        PreExp::FunctionCall(_, f) => if range_sugar(f) { if !matches!(&f.args[0], PreExp::BinaryOperation(..) | PreExp::UnaryOperation(..)) { first_word(&f.args[0]) } else { None } } else { Some(f.name.clone()) },
+        PreExp::BlockFunction(b) => Some(b.kind.to_string()),
+        PreExp::BlockScopedFunction(b) => Some(b.kind.to_string()),
+        PreExp::UnaryOperation(op, _) => if matches!(**op, rooc::UnOp::Not) { Some("not".into()) } else { None },
+        PreExp::BinaryOperation(op, l, _) => {
+            let paren = matches!(&**l, PreExp::BinaryOperation(c, _, _) if c.precedence() < op.precedence() || (c.precedence() == op.precedence() && !c.is_left_associative()));
+            if paren { None } else { first_word(l) }
+        }
+    }
+}
+fn not_for(w: Option<String>) -> bool { w.map(|w| w.to_ascii_lowercase() != "for").unwrap_or(true) }
+fn name_word(v: &Variable) -> Option<String> {
+    Some(match v { Variable::Variable(n) => n.clone(), Variable::CompoundVariable(c) => c.name.clone() })
+}
+
+/// THE PRINTABLE FRAGMENT (decidable predicate `coreProgram` of the model) on a parsed program
+pub fn in_fragment(m: &PreModel, lexeme: bool) -> bool {
+    let o = m.objective();
+    let obj_ok = match o.objective_type { OptimizationType::Satisfy => true, _ => core_exp(&o.rhs, lexeme) };
+    obj_ok
+        && m.constraints().iter().all(|c| {
+            c.name_exp.as_ref().map(|n| core_name(n.value(), lexeme)).unwrap_or(true)
+                && core_exp(&c.lhs, lexeme) && (c.is_logic_assertion || core_exp(&c.rhs, lexeme)) && core_for(&c.iteration, lexeme)
+                && not_for(match &c.name_exp { Some(n) => name_word(n.value()), None => first_word(&c.lhs) })
+        })
+        && m.constants().iter().all(|k| (plain_var(k.name.value()) || k.name.value() == "_") && core_exp(&k.value, lexeme))
+        && m.domains().iter().all(|d| {
+            !d.variables().is_empty() && d.variables().iter().all(|v| core_name(v.value(), lexeme))
+                && match d.get_type() {
+                    PreVariableType::Boolean => true,
+                    PreVariableType::NonNegativeReal(a, b) | PreVariableType::Real(a, b) => match (a, b) {
+                        (None, None) => true,
+                        (Some(a), Some(b)) => core_exp(a, lexeme) && core_exp(b, lexeme),
+                        _ => false,
+                    },
+                    PreVariableType::IntegerRange(a, b) => core_exp(a, lexeme) && core_exp(b, lexeme),
+                }
+                && core_for(d.iteration(), lexeme)
+                && not_for(d.variables().first().and_then(|v| name_word(v.value())))
+        })
+        && (!m.constraints().is_empty() || (m.constants().is_empty() && m.domains().is_empty()))
 }
